@@ -191,6 +191,42 @@ impl HistoryModel {
                 }
             }
         }
+        // one member per round is also looked at as a copy reloaded from storage (its caches
+        // were rebuilt by load_group): same observable epoch state, valid tree, right keys
+        if self.mon.decrypt || self.mon.tree || self.mon.privkeys {
+            if let Some(&p) = members.get((w.epoch() as usize + 1) % members.len().max(1)) {
+                let gid = w.g(p).group_id().to_vec();
+                let loaded = stores::with_fork(|| {
+                    let mut g = w.g(p).clone();
+                    g.write_to_storage().ok()?;
+                    w.parties[p].client.load_group(&gid).ok()
+                });
+                ctx.eval();
+                let prop = if self.mon.tree { "C08" } else if self.mon.privkeys { "C09" } else { "C01" };
+                match loaded {
+                    Some(g) => {
+                        ctx.goal("reloaded-copy");
+                        let before = ledger_entry(w, p);
+                        // look at the reloaded copy in the member's place, then put the live one back
+                        let live = w.parties[p].group.replace(g);
+                        let after = ledger_entry(w, p);
+                        if before.context != after.context || before.tree != after.tree || before.authenticator != after.authenticator || before.exports != after.exports || before.roster != after.roster {
+                            ctx.violation_for(prop, "reloaded-copy-differs", format!("{} reloaded from storage after {how} differs from the live member in its observable epoch state", w.parties[p].name));
+                        }
+                        if self.mon.tree {
+                            tree_check(w, p, ctx);
+                        }
+                        if self.mon.privkeys {
+                            if let Ok(t) = Tree::parse(&tree_bytes(w.g(p))) {
+                                privkey_check(w, p, &t, ctx);
+                            }
+                        }
+                        w.parties[p].group = live;
+                    }
+                    None => ctx.violation_for(prop, "write-or-reload-failed", format!("{} cannot be written to storage and loaded again after {how}", w.parties[p].name)),
+                }
+            }
+        }
         if self.mon.privkeys {
             // a leaf private key replaced by an own update or commit must be gone: it may not
             // occur anywhere in what the member would store (snapshot incl. private tree,
